@@ -222,22 +222,21 @@ class Hist:
         elif meth == "setitem":
             v = rng.choice(mods)
             k = idx
-            kk = k if 0 <= k < n else (k + n if -n <= k < 0 else None)
-            if kk is not None and v in cur and cur[kk] != v and not self.cfg.get("d4", False):
-                return          # D4 shape: exercised by the dedicated stream only
+            # (v may sit elsewhere in this very list: it is moved to position k -- the former finding D4, now part of every stream)
+            if cur and rng.random() < 0.25:
+                v = rng.choice(cur)
             self.emit([11, ir, k, v])
         elif meth == "setslice":
             a, b = ob(), ob()
-            vs = list(dict.fromkeys(rng.choice(mods) for _ in range(rng.choice([0, 1, 2, 3]))))
+            vs = [rng.choice(mods) for _ in range(rng.choice([0, 1, 2, 3]))]
+            if rng.random() < 0.6:
+                vs = list(dict.fromkeys(vs))        # (otherwise a module may be named twice: it is kept where it was assigned last)
+            if cur and rng.random() < 0.25:
+                vs.insert(rng.randrange(len(vs) + 1), rng.choice(cur))      # one that the list holds already, inside or outside the slice
             if rng.random() < 0.3:
                 others = [q for q in self.by_kind["IR"] if q != ir and self.w.kids(q)]
                 if others:
                     vs = list(self.w.kids(rng.choice(others)))
-            lo = _bound(a, 0, n)
-            hi = max(lo, _bound(b, n, n))
-            stay = cur[:lo] + cur[hi:]
-            if any(v in stay for v in vs) and not self.cfg.get("d4", False):
-                return
             self.emit([12, ir, a, b, vs])
         elif meth == "clear":
             self.emit([13, ir])
@@ -302,6 +301,13 @@ class Hist:
         elif m == "clear":
             self.emit([25, bi])
         else:
+            if rng.random() < 0.35:
+                # the whole content of an interval's mapping as it is now (this interval's own, or another one's): the executor
+                # hands over the live mapping
+                src = bi if rng.random() < 0.5 else rng.choice(self.by_kind["ByteInterval"])
+                cur = [[k, self.w.expr_num[id(e)]] for k, e in self.w.obj[src].symbolic_expressions.items() if id(e) in self.w.expr_num]
+                if cur and len(cur) == len(self.w.obj[src].symbolic_expressions):
+                    kvs = cur
             self.emit([26, bi, kvs])
 
     def boundary_points(self, offsets=False):
@@ -504,7 +510,6 @@ def compare(ctx, hists, sig_prefix, stream):
         for i, (it, im, mo) in enumerate(zip(h.items, h.replies, rep)):
             mo = canon_model_reply(h, it, mo)
             if mo != im:
-                # model refusing a D4 shape is not a disagreement of the property's domain
                 ndiff += 1
                 ctx.add("corr", sig_prefix + ":item%d" % it[0],
                         "history item %d %s: implementation %s, model %s" % (i, _short(it), _short(im), _short(mo)),
